@@ -4,7 +4,7 @@ HOOK_COMMITS = ["34ba92b"]
 
 ENGINES = [
     dict(name="tlc", path="/usr/local/bin/tlc", kind_free_text="TLC 1.8.0 explicit-state model checker: exhaustive checking of the specifications in /verif/spec, simulation-mode behaviour generation, trace validation",
-         serves_properties=["C01", "C02", "C09", "C10", "C11", "C12"]),
+         serves_properties=["C01", "C02", "C05", "C06", "C07", "C08", "C09", "C10", "C11", "C12", "C18"]),
     dict(name="nvh", path="/verif/harness", kind_free_text="Rust conformance harness (path dependency on /repo, built with --cfg nomt_verif): replays TLC behaviours against the real store and records observation traces",
          serves_properties=["C01", "C02", "C09", "C10", "C11", "C12"]),
 ]
@@ -50,6 +50,37 @@ CHECKS = {
                 "DESIGN.md 4/C12"),
 }
 
+_TRIE_NOTE = ("Trusted: TLC; the term evaluator (harness/src/term.rs: terms -> hashes with the store's hasher), itself checked "
+              "against Trie!Root on every case; symbolic-hash assumption (collision resistance, domain separation).  "
+              "Exhaustive at design level for all maps over 3-bit keys; the real prover/verifiers are exercised on those "
+              "maps (and sampled 4-bit maps) embedded at the top of the key space under short prefixes.")
+
+def _trie(level, text, ref):
+    return dict(level=level, engine="tlc", design_ref=ref, note=_TRIE_NOTE, text=text,
+                technique="TLA+ specification Trie (symbolic hashes) model-checked over all small maps with TLC; every real "
+                          "prover/verifier call recorded by the harness is evaluated by TLC against the transcription (TrieTrace)")
+
+CHECKS.update({
+    "C05": _trie("model_checking", "Completeness is an invariant of MC_Trie over all maps; for TLC-exported maps a real store is "
+                 "built (committed / overlay chain / reopened) and the real prover's proof of every key of the universe is "
+                 "lifted to terms and must verify and confirm exactly as Trie!VerifyPath / Confirm* say; API traces add "
+                 "proofs through deep embeddings, elided pages and overlays (proofsOk constrained by ApiTrace).", "DESIGN.md 4/C05"),
+    "C06": _api("Every Finish of a witnessed session in the API traces carries witnessOk (the stateless verification of "
+                "examples/witness_verification done by the harness: paths verify against the previous root, reads attest "
+                "what the session read, all writes covered, verify_update yields the session's root); ApiTrace requires it "
+                "in every state; verify_update itself is judged record by record in TrieTrace (UpdatePre, ApplyOps).", "DESIGN.md 4/C06"),
+    "C07": _trie("model_checking", "For TLC-exported maps the harness aggregates real path proofs over random terminal subsets; TLC "
+                 "requires the aggregate to verify, every value / non-existence query (with and without index) to be answered as "
+                 "the map says, and multi- and per-path update verification to return the root of ApplyOps(kv, W).", "DESIGN.md 4/C07"),
+    "C08": _trie("model_checking", "Soundness under the single-mutation grammar is an invariant of MC_Trie over all maps; the same "
+                 "grammar (plus splices and multi-proof mutations) is run through the real verifiers and TLC checks both exact "
+                 "agreement with the transcription and that every confirmed statement is true of the map.", "DESIGN.md 4/C08"),
+    "C18": _trie("exploration", "Every adversarial object of the C08 grammar plus structural malformations of MultiProof (depths, "
+                 "dropped/duplicated/reordered paths, truncated/extended sibling lists, foreign terminals) and malformed update "
+                 "batches is run through the real verifiers under catch_unwind; TLC rejects any record whose verdict is a panic.",
+                 "DESIGN.md 4/C18"),
+})
+
 _PENDING = "check under construction in this round; not claimed yet"
 NOT_APPLICABLE = {p: _PENDING for p in
-                  ["C03", "C04", "C05", "C06", "C07", "C08", "C13", "C14", "C15", "C16", "C17", "C18", "C19", "C20"]}
+                  ["C03", "C04", "C13", "C14", "C15", "C16", "C17", "C19", "C20"]}
